@@ -19,7 +19,9 @@ for d in sorted(glob.glob(os.path.join(out, "*"))):
     if not confirmed:
         continue
     result = {}
-    for tier in ("quick", "thorough"):
+    # a changed anchor file already escalates the quick run to the thorough case budget (anchor drift),
+    # so the thorough tier is only tried when SEED_TIERS asks for it
+    for tier in os.environ.get("SEED_TIERS", "quick,thorough").split(","):
         ev = subprocess.run([os.path.join(V, "tools/seedeval.sh"), os.path.join(d, "patch.diff"), prop, tier],
                             capture_output=True, text=True)
         lines = ev.stdout.strip().split("\n")
